@@ -34,6 +34,24 @@ CLAIMED = {
             'CPython hash constants are the documented ones (both 64- and 32-bit configurations are '
             'analysed); only the Python-3 branch of the kernels is analysed.',
             'DESIGN.md section 2, Engine G'),
+    'C10': ('B-rounding-flow',
+            'static analysis: flow-sensitive abstract interpretation of the kernels (bounded '
+            'disjunctive worlds, affine precision expressions, inter-procedural summaries), '
+            'obligations at every public store site',
+            'Every value that a public operator, constructor, elementary function installed by '
+            '_wrap_libmp_function, or context method stores into a number object is proved, on every '
+            'path through the kernels, to be a special value or to have passed a rounding primitive '
+            'at a precision <= the requested one (affine reasoning: prec+5 ... prec-5 cancels, '
+            'prec+10 does not).  Operands passed through unrounded, exact-mode results, guard bits '
+            'left on, and rounding at an unrelated precision are reported with the responsible '
+            'return statement.  Wrapped special functions are covered by the +retval rule on the '
+            'wrapper.  Documented exact operations are a frozen, reasoned exemption table.  Three '
+            'genuine defects that the pinned tests depend on are recorded as known findings.',
+            'Trusts the rounding primitives (checked under C01), the exemption tables in '
+            'sa/tables.py and that private helpers are reached only through rounding callers.  The '
+            'run-time generated hypergeometric summators are outside the analysed source.  '
+            'High-level calculus routines (findroot, invertlaplace, ...) are outside the property.',
+            'DESIGN.md section 2, Engine B'),
     'C33': ('D-cache-discipline',
             'static analysis: discovery of all mutated containers + class-specific data-flow rules '
             '(control dependence of cache hits on a precision gate, key contents, store order, '
